@@ -404,9 +404,17 @@ def _run(case, cfg, w):
         n_err = len(rec.errors)
         if kind == 'handler_raises_cb':
             # a valid callback message for a local callback that raises
-            def bad_cb(*a):
-                rec.count('fault.handler_raise.callback')
-                raise RuntimeError('injected callback failure')
+            if is_async and r % 2:
+                async def bad_cb(*a):
+                    # e.g. the callback awaited something the application
+                    # cancelled: the listener itself was not cancelled
+                    import asyncio
+                    rec.count('fault.handler_raise.callback_cancelled')
+                    raise asyncio.CancelledError()
+            else:
+                def bad_cb(*a):
+                    rec.count('fault.handler_raise.callback')
+                    raise RuntimeError('injected callback failure')
             n_log = len(bus.log)
             w.api('h0', 'emit', 'q', 'c%d' % i, to=sent_sid, callback=bad_cb)
             w.settle()
